@@ -29,7 +29,7 @@ CUR = {'ctx': None, 'case': None}
 
 
 def shards(tier, seed):
-    per = 220 if tier == 'quick' else 1800
+    per = 220 if tier == 'quick' else 9000
     budget = 45 if tier == 'quick' else 540
     return [{'kind': 'random', 'count': per, 'budget_s': budget, 'max_g': 10 if tier == 'quick' else 22} for _ in range(16)]
 
